@@ -52,6 +52,13 @@ type ReadRec struct {
 	Err      string
 }
 
+// FaultRec records a fired fault.
+type FaultRec struct {
+	Op   int
+	Kind string
+	Path string
+}
+
 // ListRec records one directory listing.
 type ListRec struct {
 	Op    int
@@ -62,19 +69,20 @@ type ListRec struct {
 
 // SimDisk is the simulated file system handed to Load/Eval.
 type SimDisk struct {
-	files  map[string][]byte
-	dirs   map[string]bool // explicit (possibly empty) directories
-	Rich   bool            // implement ReadFile/ReadDir/Stat like os.DirFS; otherwise Open only
-	Chunk  int             // bytes per Read call; 0 = whole file
-	Ops    int
-	Faults []DiskFault
-	Edits  []DiskEdit
-	Fired  Counters
-	H      *History
-	Reads  []ReadRec
-	Lists  []ListRec
-	Mute   bool // do not log to history (used for bulk runs)
-	open   []*simFile
+	files    map[string][]byte
+	dirs     map[string]bool // explicit (possibly empty) directories
+	Rich     bool            // implement ReadFile/ReadDir/Stat like os.DirFS; otherwise Open only
+	Chunk    int             // bytes per Read call; 0 = whole file
+	Ops      int
+	Faults   []DiskFault
+	Edits    []DiskEdit
+	Fired    Counters
+	H        *History
+	Reads    []ReadRec
+	Lists    []ListRec
+	Mute     bool       // do not log to history (used for bulk runs)
+	FaultLog []FaultRec // every fault that fired, with the path it hit
+	open     []*simFile
 }
 
 func NewSimDisk(files []DiskFile, h *History) *SimDisk {
@@ -227,6 +235,7 @@ func (d *SimDisk) doOpen(name string) (fs.File, error) {
 	}
 	if f != nil && (f.Kind == "eio-open" || f.Kind == "eacces-open" || f.Kind == "vanish") {
 		d.Fired.Inc(f.Kind)
+		d.FaultLog = append(d.FaultLog, FaultRec{d.Ops, f.Kind, name})
 		d.log("open", "%s -> FAULT %s", name, f.Kind)
 		return nil, pathErr("open", name, faultErr(f))
 	}
@@ -249,6 +258,7 @@ func (d *SimDisk) doReadDir(name string) ([]fs.DirEntry, error) {
 	f := d.step()
 	if f != nil && (f.Kind == "eio-readdir" || f.Kind == "vanish" || f.Kind == "eacces-open") {
 		d.Fired.Inc(f.Kind)
+		d.FaultLog = append(d.FaultLog, FaultRec{d.Ops, f.Kind, name})
 		err := pathErr("readdir", name, faultErr(f))
 		d.Lists = append(d.Lists, ListRec{Op: d.Ops, Dir: name, Err: err.Error()})
 		d.log("readdir", "%s -> FAULT %s", name, f.Kind)
@@ -311,6 +321,7 @@ func (r richFS) Stat(name string) (fs.FileInfo, error) {
 	}
 	if f != nil && (f.Kind == "eio-open" || f.Kind == "eacces-open" || f.Kind == "vanish") {
 		r.d.Fired.Inc(f.Kind)
+		r.d.FaultLog = append(r.d.FaultLog, FaultRec{r.d.Ops, f.Kind, name})
 		return nil, pathErr("stat", name, faultErr(f))
 	}
 	if b, ok := r.d.files[name]; ok {
@@ -351,6 +362,7 @@ func (f *simFile) Read(p []byte) (int, error) {
 	if flt != nil && flt.Kind == "eio-read" {
 		// deliver up to Arg further bytes, then fail
 		f.d.Fired.Inc("eio-read")
+		f.d.FaultLog = append(f.d.FaultLog, FaultRec{f.d.Ops, "eio-read", f.path})
 		n := flt.Arg
 		if n > len(f.data)-f.off {
 			n = len(f.data) - f.off
